@@ -71,7 +71,7 @@ func (pj *internalParsedJson) findStructuralIndices() bool {
 		index := indexChan{}
 		offset := atomic.AddUint64(&pj.buffersOffset, 1)
 		index.indexes = &pj.buffers[offset%indexSlots]
-		simHook(simPAcquire, pj, int(offset%indexSlots))
+		simHook(simPAcquire, pj, simSlotOf(pj, index.indexes))
 
 		// In case last index during previous round was stripped back, put it back
 		if stripped_index != ^uint64(0) {
